@@ -888,12 +888,12 @@ func compileRegAssignment(context *funcContext, names []string, exprs []ast.Expr
 
 func compileLocalAssignStmt(context *funcContext, stmt *ast.LocalAssignStmt) { // {{{
 	reg := context.RegTop()
-	if len(stmt.Names) == 1 && len(stmt.Exprs) == 1 {
-		if _, ok := stmt.Exprs[0].(*ast.FunctionExpr); ok {
-			context.RegisterLocalVar(stmt.Names[0])
-			compileRegAssignment(context, stmt.Names, stmt.Exprs, reg, len(stmt.Names), sline(stmt))
-			return
-		}
+	if stmt.IsLocalFunction && len(stmt.Names) == 1 && len(stmt.Exprs) == 1 {
+		// local function f ... end: f is in scope inside its own body. `local f = function ... end`
+		// is an ordinary declaration: there the name becomes visible after the statement.
+		context.RegisterLocalVar(stmt.Names[0])
+		compileRegAssignment(context, stmt.Names, stmt.Exprs, reg, len(stmt.Names), sline(stmt))
+		return
 	}
 
 	compileRegAssignment(context, stmt.Names, stmt.Exprs, reg, len(stmt.Names), sline(stmt))
